@@ -87,6 +87,42 @@ func objectKeysDup(b []byte) (dup string) {
 	}
 }
 
+// cmpJSConv: a field under the api.js_conv value mapping is the string spelling of its value (a list: of its elements).
+func cmpJSConv(path string, got interface{}, v *TVal) string {
+	if v.T.Kind == tLIST {
+		a, ok := got.([]interface{})
+		if !ok || len(a) != len(v.List) {
+			return fmt.Sprintf("%s: api.js_conv list: want %d elements, got %#v", path, len(v.List), got)
+		}
+		for i := range a {
+			if d := cmpJSConv(fmt.Sprintf("%s[%d]", path, i), a[i], v.List[i]); d != "" {
+				return d
+			}
+		}
+		return ""
+	}
+	s, ok := got.(string)
+	if !ok {
+		return fmt.Sprintf("%s: api.js_conv field: want a string, got %#v", path, got)
+	}
+	switch v.T.Kind {
+	case tBYTE, tI16, tI32, tI64:
+		if s != strconv.FormatInt(v.I, 10) {
+			return fmt.Sprintf("%s: api.js_conv field: want string %q, got %q", path, strconv.FormatInt(v.I, 10), s)
+		}
+	case tDOUBLE:
+		x, err := strconv.ParseFloat(s, 64)
+		if err != nil || math.Float64bits(x) != math.Float64bits(v.D) {
+			return fmt.Sprintf("%s: api.js_conv field: want the spelling of %v (bits %016x), got %q", path, v.D, math.Float64bits(v.D), s)
+		}
+	case tSTRING:
+		if s != string(v.S) {
+			return fmt.Sprintf("%s: api.js_conv field: want %q, got %q", path, clip(v.S, 80), clip([]byte(s), 80))
+		}
+	}
+	return ""
+}
+
 // cmpJSON compares parsed JSON against the model value; returns "" when it denotes exactly v.
 // extra lists, per struct path, additional members that are expected (written unset fields).
 func cmpJSON(path string, got interface{}, v *TVal, o t2jOpts, unset func(path string, st *TStruct, present map[int]bool) (map[string]*TVal, bool)) string {
@@ -171,9 +207,8 @@ func cmpJSON(path string, got interface{}, v *TVal, o t2jOpts, unset func(path s
 				return fmt.Sprintf("%s: member %q missing", path, k)
 			}
 			if jsconv[k] {
-				s, ok := g.(string)
-				if !ok || s != strconv.FormatInt(want[k].I, 10) {
-					return fmt.Sprintf("%s.%s: api.js_conv field: want string %q, got %#v", path, k, strconv.FormatInt(want[k].I, 10), g)
+				if d := cmpJSConv(path+"."+k, g, want[k]); d != "" {
+					return d
 				}
 				continue
 			}
